@@ -22,6 +22,15 @@ type c14In struct {
 	// Sets is the sequence of SetAttr calls for an AKA' packet (any order, overwrites included);
 	// the packet's attribute set is the last value per type.
 	Sets []model.AkaAttr `json:"sets,omitempty"`
+	// Refused: SetAttr calls with a wrong size for a fixed-size attribute, attempted after the Sets call of the given index;
+	// each must be refused and must leave the packet as it was
+	Refused []c14Refused `json:"refused_sets,omitempty"`
+}
+
+type c14Refused struct {
+	After int   `json:"after"`
+	Type  uint8 `json:"type"`
+	Size  int   `json:"size"`
 }
 
 func c14Final(sets []model.AkaAttr) []model.AkaAttr {
@@ -56,6 +65,19 @@ var c14Codec = probe.Define("C14", "codec", func(t *rapid.T) c14In {
 		all := append(pre, rapid.Permutation(sets).Draw(t, "order")...)
 		in.Sets = all
 		in.EAP.Attrs = c14Final(all)
+		for i := rapid.IntRange(0, 3).Draw(t, "nrefused"); i > 0 && len(all) > 0; i-- {
+			ty := rapid.SampledFrom([]uint8{model.AT_RAND, model.AT_AUTN, model.AT_MAC, model.AT_KDF, model.AT_RES}).Draw(t, "refused.type")
+			var size int
+			switch ty {
+			case model.AT_KDF:
+				size = rapid.SampledFrom([]int{0, 1, 3, 4, 16}).Draw(t, "refused.size")
+			case model.AT_RES:
+				size = rapid.SampledFrom([]int{0, 1, 2, 3, 17, 18, 20, 32, 255, 300}).Draw(t, "refused.size")
+			default:
+				size = rapid.SampledFrom([]int{0, 1, 4, 15, 17, 20, 32}).Draw(t, "refused.size")
+			}
+			in.Refused = append(in.Refused, c14Refused{After: rapid.IntRange(0, len(all)-1).Draw(t, "refused.after"), Type: ty, Size: size})
+		}
 	}
 	return in
 }, func(in c14In) probe.Outcome {
@@ -64,7 +86,7 @@ var c14Codec = probe.Define("C14", "codec", func(t *rapid.T) c14In {
 	if e.Kind == model.EAka {
 		// build through the API in the given call order
 		ak := eap.NewEapAkaPrime(eap.EapAkaSubtype(e.Sub))
-		for _, s := range in.Sets {
+		for si, s := range in.Sets {
 			v := append([]byte{}, s.Value...)
 			if err := probe.Try(func() error { return ak.SetAttr(eap.EapAkaPrimeAttrType(s.Type), v) }); err != nil {
 				return probe.Fail("SetAttr(%d, %d octets) refused a legal value: %v", s.Type, len(s.Value), err)
@@ -81,8 +103,27 @@ var c14Codec = probe.Define("C14", "codec", func(t *rapid.T) c14In {
 				return probe.Fail("GetAttr(%d) returned an attribute of type %d", s.Type, got.GetAttrType())
 			}
 			// encoding the packet while it is being put together must leave nothing behind
-			if err := probe.Try(func() error { _, e := ak.Marshal(); return e }); err != nil {
+			var before []byte
+			if err := probe.Try(func() error { var e error; before, e = ak.Marshal(); return e }); err != nil {
 				return probe.Fail("intermediate Marshal: %v", err)
+			}
+			// refused SetAttr calls must change nothing
+			for _, r := range in.Refused {
+				if r.After != si {
+					continue
+				}
+				bad := bytes.Repeat([]byte{0xee}, r.Size)
+				err := probe.Try(func() error { return ak.SetAttr(eap.EapAkaPrimeAttrType(r.Type), bad) })
+				if probe.IsPanic(err) {
+					return probe.Fail("SetAttr(%d, %d octets) panics: %v", r.Type, r.Size, err)
+				}
+				if err == nil {
+					return probe.Fail("SetAttr(%d) accepts the wrong size %d", r.Type, r.Size)
+				}
+				var after []byte
+				if err := probe.Try(func() error { var e error; after, e = ak.Marshal(); return e }); err != nil || !bytes.Equal(before, after) {
+					return probe.Fail("a refused SetAttr(%d, %d octets) changed the packet: encoding before %x, after %x (%v)", r.Type, r.Size, before, after, err)
+				}
 			}
 		}
 		le = &eap.EAP{Code: eap.EapCode(e.Code), Identifier: e.Identifier, EapTypeData: ak}
